@@ -196,4 +196,137 @@ theorem extract_diagrams_same (s : St) (el : Nat) (pos : EState) (h : aget s.loo
   rw [e]
   exact ⟨_, aget_aset_same _ _ _, rfl⟩
 
+/-! ### writing an ElementState into the lookup table -/
+
+def setL (s : St) (idx : Nat) (el : Nat) (st' : EState) : St :=
+  { s with index := idx, lookup := aset s.lookup el st' }
+
+theorem setL_spec (g : Grammar) (s : St) (idx el : Nat) (st' : EState) (hl : LInv g s)
+    (h1 : st'.name.isSome → st'.extract = true)
+    (h2 : st'.extract = true → st'.name = customOf g el ∧ truthy (customOf g el) = true)
+    (h3 : Pend s el → st'.extract = true) :
+    LInv g (setL s idx el st') ∧
+      (∀ u, Pend (setL s idx el st') u → Pend s u ∨ (u = el ∧ st'.extract = true)) ∧
+      (∀ u, Tgt s u → Tgt (setL s idx el st') u) := by
+  have tg : ∀ u, Tgt s u → Tgt (setL s idx el st') u := by
+    intro u hu
+    by_cases hu' : u = el
+    · subst hu'
+      rcases hu with hu | hu
+      · exact Or.inl hu
+      · exact Or.inr ⟨st', aget_aset_same _ _ _, h3 hu⟩
+    · unfold Tgt Pend setL
+      simp only [aget_aset_ne _ _ _ _ hu']
+      exact hu
+  refine ⟨⟨?_, hl.dg, ?_⟩, ?_, tg⟩
+  · intro u st hu
+    by_cases hu' : u = el
+    · subst hu'
+      simp only [setL, aget_aset_same, Option.some.injEq] at hu
+      subst hu
+      exact ⟨h1, h2⟩
+    · simp only [setL, aget_aset_ne _ _ _ _ hu'] at hu
+      exact hl.lk u st hu
+  · intro nd hnd hf
+    obtain ⟨u, hu, ht⟩ := hl.nt nd hnd hf
+    exact ⟨u, hu, tg u ht⟩
+  · intro u ⟨st, hst, he⟩
+    by_cases hu' : u = el
+    · subst hu'
+      simp only [setL, aget_aset_same, Option.some.injEq] at hst
+      subst hst
+      exact Or.inr ⟨rfl, he⟩
+    · simp only [setL, aget_aset_ne _ _ _ _ hu'] at hst
+      exact Or.inl ⟨st, hst, he⟩
+
+theorem aset_aset {α} (l : List (Nat × α)) (k : Nat) (v w : α) : aset (aset l k v) k w = aset l k w := by
+  induction l with
+  | nil => simp [aset]
+  | cons p rest ih =>
+    obtain ⟨k', v'⟩ := p
+    unfold aset
+    by_cases h : k' = k
+    · simp [h, aset]
+    · simp only [h, if_false]
+      rw [aset]
+      simp [h, ih]
+
+/-- the name chosen by `mark_for_extraction` -/
+def markName (g : Grammar) (st : EState) (el : Nat) (name : Option String) : Option String :=
+  if truthy st.name then st.name
+  else if truthy name then name
+  else if truthy ((g[el]?).bind (·.custom)) then (g[el]?).bind (·.custom)
+  else some ""
+
+theorem mark_eq (g : Grammar) (s : St) (el : Nat) (name : Option String) (f : Bool) (st : EState)
+    (h : aget s.lookup el = some st) :
+    markForExtraction g s el name f =
+      if f || (st.complete && worth g el) then
+        extractIntoDiagram (setL s s.index el { st with extract := true, name := markName g st el name }) el
+      else setL s s.index el { st with extract := true, name := markName g st el name } := by
+  unfold markForExtraction
+  simp only [h]
+  rfl
+
+theorem truthy_isSome {a : Option String} (h : truthy a = true) : a.isSome := by
+  cases a with
+  | none => simp [truthy] at h
+  | some x => rfl
+
+/-- `mark_for_extraction` (not forced) of an element that is named already, or with its custom name -/
+theorem mark_spec (g : Grammar) (s : St) (el : Nat) (name : Option String) (hl : LInv g s)
+    (hn : ∀ st, aget s.lookup el = some st →
+      st.name.isSome ∨ (name = customOf g el ∧ truthy name = true)) :
+    LInv g (markForExtraction g s el name false) ∧
+      (∀ u, Pend (markForExtraction g s el name false) u → Pend s u ∨ u = el) ∧
+      (∀ u, Tgt s u → Tgt (markForExtraction g s el name false) u) ∧
+      ((∃ st, aget s.lookup el = some st ∧ st.name.isSome) →
+        ∀ u, Pend (markForExtraction g s el name false) u → Pend s u) := by
+  cases h : aget s.lookup el with
+  | none =>
+    have e : markForExtraction g s el name false = s := by
+      unfold markForExtraction; simp only [h]
+    rw [e]
+    exact ⟨hl, fun u hu => Or.inl hu, fun _ hu => hu, fun _ _ hu => hu⟩
+  | some st =>
+    have hnm : markName g st el name = customOf g el ∧ truthy (customOf g el) = true := by
+      unfold markName
+      by_cases ht : truthy st.name = true
+      · have := (hl.lk el st h).2 ((hl.lk el st h).1 (truthy_isSome ht))
+        simp only [ht, if_true]; exact this
+      · rcases hn st h with hs | ⟨hs1, hs2⟩
+        · have := (hl.lk el st h).2 ((hl.lk el st h).1 hs)
+          rw [this.1] at ht; exact absurd this.2 ht
+        · simp only [ht, hs2, if_true]
+          exact ⟨hs1, hs1 ▸ hs2⟩
+    obtain ⟨a1, a2, a3⟩ := setL_spec g s s.index el { st with extract := true, name := markName g st el name } hl
+      (fun _ => rfl) (fun _ => hnm) (fun _ => rfl)
+    rw [mark_eq g s el name false st h]
+    split
+    · obtain ⟨b1, b2, b3⟩ := extract_spec g _ el
+        (fun pos hp => by
+          simp only [setL, aget_aset_same, Option.some.injEq] at hp
+          subst hp; rfl) a1
+      refine ⟨b1, ?_, fun u hu => b3 u (a3 u hu), ?_⟩
+      · intro u hu
+        rcases a2 u (b2 u hu).1 with hh | hh
+        · exact Or.inl hh
+        · exact Or.inr hh.1
+      · intro _ u hu
+        rcases a2 u (b2 u hu).1 with hh | hh
+        · exact hh
+        · exact absurd hh.1 (b2 u hu).2
+    · refine ⟨a1, ?_, a3, ?_⟩
+      · intro u hu
+        rcases a2 u hu with hh | hh
+        · exact Or.inl hh
+        · exact Or.inr hh.1
+      · rintro ⟨st0, hst0, hs0⟩ u hu
+        rcases a2 u hu with hh | hh
+        · exact hh
+        · rw [hh.1]
+          simp only [Option.some.injEq] at hst0
+          subst hst0
+          exact ⟨st, h, (hl.lk el st h).1 hs0⟩
+
 end PP.Diagram
